@@ -128,6 +128,24 @@ def poll : Leaf → List Key × Leaf
 
 end Leaf
 
+/-- what the group-by node tells its trigger while the source runs -/
+inductive TEv where
+  | key (k : Key)      -- a record (addition or retraction) of this group arrived
+  | wm (w : Int)       -- a watermark arrived
+  deriving Inhabited
+
+namespace Leaf
+variable (wl : WKey → WKey → Bool)
+/-- the node calls `KeyReceived` / `WatermarkReceived` and then, at once, `Poll` -/
+def stepEv (l : Leaf) : TEv → List Key × Leaf
+  | .key k => (l.keyReceived wl k).poll wl
+  | .wm w => (l.watermarkReceived w).poll wl
+/-- state of a primitive trigger after the node processed the events -/
+def drive (l : Leaf) : List TEv → Leaf
+  | [] => l
+  | e :: es => drive (l.stepEv wl e).2 es
+end Leaf
+
 /-- a trigger object: a primitive one or a `MultiTrigger` over trigger objects (any nesting) -/
 inductive TState where
   | leaf (l : Leaf)
